@@ -973,7 +973,7 @@ theorem haveBase_false_base (low : Option Addr) (h : haveBaseAddress low = false
 
 /-- what a successful `writeUnitAt` consists of -/
 theorem writeUnitAt_ok {m : Mode} {u : UnitIn} {p : Pos} {out : UnitOut} (h : writeUnitAt m u p = .ok out) :
-    (2 ≤ u.cfg.version ∧ u.cfg.version ≤ 5) ∧
+    ValidSize u.cfg.addrSize ∧ (2 ≤ u.cfg.version ∧ u.cfg.version ≤ 5) ∧
     ∃ r l, writeTable m .rng u.cfg (unitEOff u) p.uoff (haveBaseAddress u.lowPc) p.rngStart (addAll [] u.rng).1 = .ok r ∧
       writeTable m .loc u.cfg (unitEOff u) p.uoff (haveBaseAddress u.lowPc) p.locStart (addAll [] u.loc).1 = .ok l ∧
       (∃ bs, writeLowPc u.cfg u.lowPc = .ok bs) ∧
@@ -981,12 +981,15 @@ theorem writeUnitAt_ok {m : Mode} {u : UnitIn} {p : Pos} {out : UnitOut} (h : wr
   unfold writeUnitAt at h
   split at h
   · simp at h
-  · rename_i hv
-    obtain ⟨r, h1, h2⟩ := bind_ok_inv h
-    obtain ⟨l, h3, h4⟩ := bind_ok_inv h2
-    obtain ⟨b, h5, h6⟩ := bind_ok_inv h4
-    simp only [Out.pure_eq, Out.ok.injEq] at h6
-    exact ⟨by omega, r, l, h1, h3, ⟨b, h5⟩, h6.symm⟩
+  · rename_i hs
+    split at h
+    · simp at h
+    · rename_i hv
+      obtain ⟨r, h1, h2⟩ := bind_ok_inv h
+      obtain ⟨l, h3, h4⟩ := bind_ok_inv h2
+      obtain ⟨b, h5, h6⟩ := bind_ok_inv h4
+      simp only [Out.pure_eq, Out.ok.injEq] at h6
+      exact ⟨by unfold ValidSize; omega, by omega, r, l, h1, h3, ⟨b, h5⟩, h6.symm⟩
 
 /-! ## DWARF ≤ 4: the two words every accepted entry starts with -/
 
@@ -1346,17 +1349,20 @@ theorem writeTable_normal (m : Mode) (k : Kind) (c : Cfg) (eo : EOff) (uoff : Na
           normal_bind _ _ (writeInitialLength_normal _ _ _) fun _ => normal_ok _
       · exact normal_err _
 
-theorem writeUnitAt_normal (m : Mode) (u : UnitIn) (p : Pos) (hm : (marker m u.cfg.addrSize).Normal) :
-    (writeUnitAt m u p).Normal := by
+theorem writeUnitAt_normal (m : Mode) (u : UnitIn) (p : Pos) : (writeUnitAt m u p).Normal := by
   unfold writeUnitAt
   split
   · exact normal_err _
-  · refine normal_bind _ _ (writeTable_normal _ _ _ _ _ _ _ _ hm) fun _ =>
-      normal_bind _ _ (writeTable_normal _ _ _ _ _ _ _ _ hm) fun _ =>
-        normal_bind _ _ ?_ fun _ => normal_ok _
-    cases u.lowPc with
-    | none => exact normal_ok _
-    | some a => exact writeAddress_normal _ a
+  · rename_i hs
+    have hm : (marker m u.cfg.addrSize).Normal := marker_normal m _ (.inl (by omega))
+    split
+    · exact normal_err _
+    · refine normal_bind _ _ (writeTable_normal _ _ _ _ _ _ _ _ hm) fun _ =>
+        normal_bind _ _ (writeTable_normal _ _ _ _ _ _ _ _ hm) fun _ =>
+          normal_bind _ _ ?_ fun _ => normal_ok _
+      cases u.lowPc with
+      | none => exact normal_ok _
+      | some a => exact writeAddress_normal _ a
 
 /-! ## offsets of different lists differ -/
 
@@ -1431,5 +1437,13 @@ theorem writeTable_increasing {m : Mode} {k : Kind} {c : Cfg} {eo : EOff} {uoff 
         rw [← h4.2]
         exact (writeLists_increasing _ (fun l bs h => writeEntriesCoded_pos l bs h) _ _ _ _ h1).2
       · cases hw
+
+/-- an entry's addresses are constants -/
+def NoSymbol : WEntry → Prop
+  | .baseAddress a => ∃ v, a = .const v
+  | .offsetPair _ _ _ => True
+  | .startEnd b e _ => (∃ v, b = .const v) ∧ ∃ v, e = .const v
+  | .startLength b _ _ => ∃ v, b = .const v
+  | .defaultLocation _ => True
 
 end Gimli.WLists
